@@ -38,6 +38,7 @@ func runC14(cx *lib.Ctx) {
 	if cx.Replay == "" {
 		corrPos(cx)
 		corrRangeScan(cx)
+		corrJSONScan(cx)
 	}
 	res := cx.Res
 	res.MaxPerKey = 2
